@@ -57,19 +57,56 @@ def make_variants(seed_key, p_bad):
     rich = r.random() < 0.35
     if rich:
         g.p_async, g.kind_choices, g.flag_counts = 0.7, ['interface'] * 4 + ['record', 'enum', 'error'], [0, 1, 1, 2]   # support files that exist once per run (async helpers) must not depend on which declaration comes last
-    decls = g.program()
+    head, extra = "", {}
+    if g.well_typed and not rich and r.random() < 0.25:
+        # external types: declared by an `@extern` line of the root file; a part moved into an imported file keeps using
+        # them (the load lines are processed in source order: the `@extern` line stands before the `@import` line)
+        ext = [{"name": "xt0", "ns": [], "prim": "record"}, {"name": "xe1", "ns": ["xlib"], "prim": "enum"}, {"name": "xi2", "ns": ["xlib", "v2"], "prim": "interface"}]
+        ext = r.sample(ext, r.choice([1, 2, 3]))
+        head, extra = '@extern "e.yaml"\n', {"/w/e.yaml": {"ext": ext}}
+        decls = g.program_with_visible([{"k": d["prim"], "name": d["name"], "ns": d["ns"]} for d in ext], prefix="")
+    else:
+        decls = g.program()
     texts = [decl_text(d, None, 'min') for d in decls]
     base = "\n".join(texts)
-    variants = {"original": {"/w/m.djinni": base}}
+    variants = {"original": {"/w/m.djinni": head + base, **extra}}
     # re-format
-    variants["reformat"] = {"/w/m.djinni": "\n".join(decl_text(d, random.Random(seed_key + "/fmt"), 'random') for d in decls)}
+    variants["reformat"] = {"/w/m.djinni": head + "\n".join(decl_text(d, random.Random(seed_key + "/fmt"), 'random') for d in decls), **extra}
     # permute
     order = list(range(len(decls)))
     r.shuffle(order)
-    variants["permute"] = {"/w/m.djinni": "\n".join(texts[i] for i in order)}
+    variants["permute"] = {"/w/m.djinni": head + "\n".join(texts[i] for i in order), **extra}
     if rich and len(decls) > 2:
         variants["reverse"] = {"/w/m.djinni": "\n".join(reversed(texts))}
-    return decls, texts, variants, r
+    return decls, texts, variants, r, head, extra
+
+
+def scoping_variants(seed_key):
+    """the same declarations and references under two member orders: equally named types at several namespace positions
+    (incl. a top-level namespace named like an inner one) and *every* relative / partly qualified / absolute spelling
+    that resolves, from every position; which declaration a spelling denotes must not depend on the order the members
+    are written (or resolved) in"""
+    import props.c04 as c04
+    r = random.Random(seed_key)
+    families = [[["a"], ["b"]], [["a"], ["b"], []], [["a", "b"], ["b"]], [["a", "d"], ["d"], ["a"]], [["a", "b", "a"], ["a"]], [["ab"], ["a"], ["b"]],
+                [["a", "b", "c"], ["b", "c"], ["c"]], [["a", "b"], ["a"], ["b"], []]]
+    pl = r.choice(families) if r.random() < 0.5 else r.sample(c04.POSITIONS + [["b", "c"], ["c"], ["d"]], r.choice([2, 3]))
+    keys = {tuple(ns) + ("x",) for ns in pl}
+    sp = c04.spellings(pl)
+
+    def resolves(site, spelling):
+        if spelling.startswith("."):
+            return tuple(spelling[1:].split(".")) in keys
+        return any(tuple(site[:k]) + tuple(spelling.split(".")) in keys for k in range(len(site), -1, -1))
+    decls = [(ns, f"x = enum {{ k{i}; }}" if i % 2 == 0 else f"x = record {{ v{i}: i32; }}") for i, ns in enumerate(pl)]
+    holders = []
+    for i, site in enumerate(c04.POSITIONS + [["b", "c"]]):
+        ok = [q for q in sp if resolves(site, q)]
+        if ok:
+            holders.append((site, f"h{i} = record {{ " + " ".join(f"f{j}: {q};" for j, q in enumerate(ok)) + " }"))
+    a = c04.emit_tree(holders + decls, random.Random(seed_key + "/t"), 1)
+    b = c04.emit_tree(list(reversed(decls)) + list(reversed(holders)), random.Random(seed_key + "/t"), 0)
+    return {"original": {"/w/m.djinni": a}, "permute": {"/w/m.djinni": b}}
 
 
 def closed_subset(r, n, deps):
@@ -103,17 +140,27 @@ def run(ctx):
     # ---- phase 1: parse the original to learn the dependency graph ----------------------------
     todo1 = []
     for i in range(n):
-        decls, texts, variants, r = make_variants(f"{ctx.seed}/c11/{i}", p_bad=0.0 if i % 4 else 0.2)
-        progs.append({"decls": decls, "texts": texts, "variants": variants, "r": r, "accepted_expected": i % 4 != 0})
+        decls, texts, variants, r, head, extra = make_variants(f"{ctx.seed}/c11/{i}", p_bad=0.0 if i % 4 else 0.2)
+        progs.append({"decls": decls, "texts": texts, "variants": variants, "r": r, "accepted_expected": i % 4 != 0, "head": head, "extra": extra})
         todo1.append({"files": variants["original"], "root": "/w/m.djinni"})
+    for i in range(ctx.n(60, 600)):
+        v = scoping_variants(f"{ctx.seed}/c11/scope/{i}")
+        progs.append({"decls": [None, None], "texts": [], "variants": v, "r": random.Random(0), "accepted_expected": False, "head": "", "extra": {}, "scoping": True,
+                      "targets": ["cpp", "cppcli"]})
+        todo1.append({"files": v["original"], "root": "/w/m.djinni"})
     res1 = front.run_many(ctx.tmp, todo1)
     # ---- phase 2: build split variants, run the front end on all variants ---------------------
     todo2, index = [], []
     for pi, (p, (impl, _)) in enumerate(zip(progs, res1)):
+        if p.get("scoping"):
+            for vname, files in p["variants"].items():
+                todo2.append({"files": files, "root": "/w/m.djinni"})
+                index.append((pi, vname))
+            continue
         decls, texts, r = p["decls"], p["texts"], p["r"]
         keys = keys_of(decls)
         # declaration i spans lines: texts are joined by '\n' and each 'min' text is one or more lines
-        starts, line = [], 1
+        starts, line = [], 1 + p["head"].count("\n")
         for t in texts:
             starts.append(line)
             line += t.count("\n") + 1
@@ -126,18 +173,19 @@ def run(ctx):
         s = closed_subset(r, len(decls), deps) if not unresolved else set()
         if s:
             lib = "\n".join(texts[i] for i in sorted(s))
-            main = '@import "lib/part.djinni"\n' + "\n".join(texts[i] for i in range(len(decls)) if i not in s)
-            p["variants"]["split"] = {"/w/m.djinni": main, "/w/lib/part.djinni": lib}
+            main = p["head"] + '@import "lib/part.djinni"\n' + "\n".join(texts[i] for i in range(len(decls)) if i not in s)
+            p["variants"]["split"] = {"/w/m.djinni": main, "/w/lib/part.djinni": lib, **p["extra"]}
             # two levels: a dependency-closed part of the library goes one level deeper
             sl = sorted(s)
             deep = closed_subset(r, len(sl), {a: {sl.index(k) for k in deps.get(sl[a], set()) if k in s} for a in range(len(sl))})
             if deep:
                 lib2 = "\n".join(texts[sl[a]] for a in sorted(deep))
                 lib1 = '@import "deep.djinni"\n' + "\n".join(texts[sl[a]] for a in range(len(sl)) if a not in deep)
-                p["variants"]["split2"] = {"/w/m.djinni": main, "/w/lib/part.djinni": lib1, "/w/lib/deep.djinni": lib2}
+                p["variants"]["split2"] = {"/w/m.djinni": main, "/w/lib/part.djinni": lib1, "/w/lib/deep.djinni": lib2, **p["extra"]}
                 # diamond: the deep file is reached along two import paths with different spellings of its path
-                p["variants"]["diamond"] = {"/w/m.djinni": '@import "other/b.djinni"\n' + main, "/w/lib/part.djinni": lib1,
-                                            "/w/other/b.djinni": '@import "../lib/deep.djinni"\n', "/w/lib/deep.djinni": lib2}
+                if not p["extra"]:
+                    p["variants"]["diamond"] = {"/w/m.djinni": '@import "other/b.djinni"\n' + main, "/w/lib/part.djinni": lib1,
+                                                "/w/other/b.djinni": '@import "../lib/deep.djinni"\n', "/w/lib/deep.djinni": lib2}
         for vname, files in p["variants"].items():
             todo2.append({"files": files, "root": "/w/m.djinni"})
             index.append((pi, vname))
@@ -187,9 +235,9 @@ def run(ctx):
                 ctx.report(key, f"acceptance or diagnostics (modulo positions) change under '{vname}'",
                            {"input": {"original": p["variants"]["original"], "variant": p["variants"][vname]}, "variant": vname,
                             "original_outcome": strip(o), "variant_outcome": strip(impl)})
-        if o["kind"] == "ok":
+        if o["kind"] == "ok" and not p["extra"]:      # the generators need complete external type files: front end only for those
             for vname in vs:
-                gen_cases.append({"files": p["variants"][vname], "root": "/w/m.djinni", "config": genrun.default_config(), "targets": TARGETS})
+                gen_cases.append({"files": p["variants"][vname], "root": "/w/m.djinni", "config": genrun.default_config(), "targets": p.get("targets", TARGETS)})
                 gen_index.append((pi, vname))
     # ---- metamorphic specification: generated files -------------------------------------------
     gres = genrun.run_many(ctx.tmp, gen_cases, timeout=40)
